@@ -1241,4 +1241,20 @@ theorem schemaCopy_fr (v : Val) (s : St) :
           exact Or.inr h
   · exact Fr.refl (by simp [resIds])
 
+theorem setattrWrites_targets (d : Decl) (fname : String) (v : Val) (i k : Nat) (ks : List String) (a : Nat)
+    (aks : List String) (avs xs : List Val) :
+    ∀ p ∈ setattrWrites d fname v (.node i (.inst k) ks (.node a .dict aks avs :: xs)), p.1 = i ∨ p.1 = a := by
+  intro p hp
+  simp only [setattrWrites] at hp
+  split at hp
+  · split at hp
+    · simp only [List.mem_cons, List.not_mem_nil, or_false] at hp
+      rcases hp with rfl | rfl
+      · exact Or.inr rfl
+      · exact Or.inl rfl
+    · simp only [List.mem_cons, List.not_mem_nil, or_false] at hp
+      subst hp; exact Or.inl rfl
+  · simp only [List.mem_cons, List.not_mem_nil, or_false] at hp
+    subst hp; exact Or.inr rfl
+
 end Utv.C19
